@@ -2,10 +2,12 @@ From Coq Require Import Extraction ExtrOcamlBasic.
 From Common Require Import Bytes Drv Outcome.
 From Grandpa Require Import Tree Votes RoundSpec.
 From C21 Require Import Model Spec.
+From C22 Require Import ModelImpl.
 (* the protocol model of C22 is a relation (Prop); the trace validation replays the per-voter
    mirror of lib/grandpa (C21.Model) and evaluates the step premises of C22.Model.step with the
    specification functions below *)
 Extraction "model.ml" drv_b2n drv_n2b drv_z_of_n drv_n_of_z drv_nat_of_n drv_n_of_nat
   mkEnv mkGV mkSt mkMsg validate_vote_message store_own prevoted_block determine_precommit
   attempt_to_finalize total_votes threshold number known no_tie prevote_candidates hash_conflict
-  spec_supermajority spec_ghost spec_tolerant stored_ok lookup depth ancb.
+  spec_supermajority spec_ghost spec_tolerant stored_ok lookup depth ancb
+  determine_prevote spec_votes unit_ws later_below follows_view.
